@@ -48,6 +48,7 @@ type RealNode struct {
 	Verdict       func(b *FakeBlock) bool
 	CancelDuring  int // 0: no; 1: during the next SPI call the main loop handles the election trigger of the current view; 2: a late trigger of the previous view; 3: of view 0
 	CommitCbFails bool
+	SendErr       func() bool // the transport's SendConsensusMessage returns an error (the message still goes out)
 	PrevProof     []byte
 	Panicked      string
 	MonViol       func(prop, sig, what string) // set by the scenario: report a monitor violation
@@ -235,6 +236,11 @@ func (c *recComm) SendConsensusMessage(ctx context.Context, recipients []primiti
 	c.n.Sent = append(c.n.Sent, s)
 	c.n.newSent = append(c.n.newSent, s)
 	c.n.addOut(fmt.Sprintf("send:%s:%s", c.n.enc.ids(to), c.n.enc.msg(message)))
+	if c.n.SendErr != nil && c.n.SendErr() {
+		// the transport reports a failure although the message is on its way to (some of) the
+		// recipients: what a node has signed and handed over must count as sent
+		return errors.New("transport: send failed after partial delivery")
+	}
 	return nil
 }
 
